@@ -271,7 +271,7 @@ func DriverMain(propID, tier string) int {
 		"cases":               cases,
 		"nontrivial":          nontriv,
 		"distinct_nontrivial": len(distinctAll),
-		"rule":                prop.Rule,
+		"rule":                prop.Rule + " (This text describes the generators and oracles of the check as first completed; every phase that ran, including those added later, is listed under \"phases\" with its measured counts, and DESIGN.md section 5 says what each later phase adds.)",
 		"samples":             samples,
 		"exhaustive":          allExh && len(order) > 0,
 		"phases":              phasesOut,
